@@ -22,7 +22,7 @@ type Report struct {
 const libMarker = "github.com/varlink/go/"
 
 // overlayFile is the file name under which the white-box accessors are injected into package varlink (see ./check).
-const overlayFile = "zz_verif_whitebox.go"
+const overlayFile = "zz_verif_whitebox"
 
 var lineRx = regexp.MustCompile(`^\s+(/\S+\.go):(\d+)`)
 
@@ -58,7 +58,7 @@ func parseBlock(blk string) Report {
 		fn, site := pickFrame(s)
 		keys = append(keys, fn)
 		sites = append(sites, fn+"@"+site)
-		if strings.HasPrefix(site, overlayFile+":") {
+		if strings.HasPrefix(site, overlayFile) || strings.HasPrefix(site, "varlink_whitebox") {
 			// one of the two accesses is made by the harness' own white-box accessor (overlay file): its locking mirrors
 			// the pinned tree and says nothing about the library's own accesses
 			r.Relevant = false
